@@ -347,7 +347,7 @@ def compare_tables_with_model(ctx, case, tables, model_s, cols, key):
     return ok
 
 
-def oracle_order_column(ctx, case, tables, A, B, dt, method, nxseg, col, Nch, ordmax, key):
+def oracle_order_column(ctx, case, tables, A, B, dt, method, nxseg, col, Nch, ordmax, key, tol=None):
     """Property text: at order n one pole per root with non-positive real part (fn = |lam|/2pi, xi = -Re lam/|lam|),
     nothing else; every other cell NaN, jointly in the tables; (ordmax+1) Nch rows."""
     Fn, Xi, Phi = tables[0], tables[1], tables[2]
@@ -373,15 +373,16 @@ def oracle_order_column(ctx, case, tables, A, B, dt, method, nxseg, col, Nch, or
     # methodSy='cor' adds the library's exponential-window correction to the mapped roots (judged by C08, not here):
     # frequency/damping VALUES are judged with 'per'; count, joint NaN pattern and mode shapes with both
     use_val = method == "per"
-    d = match_cells(exp, got, TOL_POLE, use_val=use_val)
-    if d > TOL_POLE:
-        dd = match_cells(exp, got, TOL_POLE, use_phi=False, use_val=use_val)
-        what = "fn/xi" if dd > TOL_POLE else "mode shapes (B(z) v, unity-normalised)"
+    tol = TOL_POLE if tol is None else tol
+    d = match_cells(exp, got, tol, use_val=use_val)
+    if d > tol:
+        dd = match_cells(exp, got, tol, use_phi=False, use_val=use_val)
+        what = "fn/xi" if dd > tol else "mode shapes (B(z) v, unity-normalised)"
         ctx.fail("oracle", "order-n column: reported %s differ from the roots of det A(z) mapped to continuous time by %.3g" % (what, d),
-                 case, key="C05:%s:%s" % (key, "values" if dd > TOL_POLE else "shapes"))
+                 case, key="C05:%s:%s" % (key, "values" if dd > tol else "shapes"))
 
 
-def oracle_coefficients(ctx, case, Ad_n, Bn_n, A, B, sgn, cond, key):
+def oracle_coefficients(ctx, case, Ad_n, Bn_n, A, B, sgn, cond, key, tol=None):
     n = A.shape[0] - 1
     fix = 0 if sgn == -1 else n
     Afi = np.linalg.inv(A[fix])
@@ -396,7 +397,7 @@ def oracle_coefficients(ctx, case, Ad_n, Bn_n, A, B, sgn, cond, key):
         return False
     scale = max(1.0, np.abs(At).max(), np.abs(Bt).max())
     err = max(np.abs(Ad_n - At).max(), np.abs(Bn_n - Bt).max()) / scale
-    tol = TOL_COEF * max(1.0, cond * cond / 1e6)
+    tol = TOL_COEF * max(1.0, cond * cond / 1e6) if tol is None else tol
     if err > tol:
         ea = np.abs(Ad_n - At).max() / scale
         ctx.fail("oracle", "pLSCF does not reproduce the %s coefficients under the normalisation A_%s = I: error %.3g (tolerance %.1g, LS condition %.3g)"
@@ -484,6 +485,25 @@ def run(ctx):
         plan.append(dict(n=n, Nch=Nch, Nref=Nref, Nf=4 * (n + 1) if nf is None else max(nf, 4 * (n + 1)), sgn=-1 if j % 2 else 1,
                          dt=float(awkward_dt[j % len(awkward_dt)]), method="per" if j % 4 else "cor", nxseg=int(rng.choice([64, 1024])),
                          A=A, B=B, extra_order=False, oracle_only=True, src="lines"))
+    # "model orders up to ordmax >= n".  Above order n an exactly rational spectrum makes the constrained block of M exactly
+    # singular: in floats its pivots are rounding noise, np.linalg.solve then raises when one of them happens to be exactly 0
+    # (calibrated on the unchanged tree: 17 of 300 exact draws, 0 of 1600 with a 1e-7 relative full-rank floor).  Two streams:
+    #  (a) floor = 1e-7 relative perturbation of Sy, ordmax in {n+1, n+2}: nothing is singular, so an exception is an oracle failure;
+    #      the order-n model is judged at a floor-scaled tolerance (calibrated: coefficient error <= 0.9 floor cond, poles <= 0.4 floor cond);
+    #  (b) exact spectra, ordmax in {n+1, n+2}: the order-n model is judged at full tolerance whenever the call returns; the number of
+    #      calls that raise is judged against the baseline rate (5.7 %): a third or more of the stream raising is an oracle failure.
+    n_above = ctx.n(24, 72)
+    for j in range(ctx.n(10, 40) + n_above):
+        n = 1 + j % 3
+        Nch = 2 + (j // 3) % 2
+        Nref = 1 + (j // 2) % 3
+        A, B = gen_system(rng, n, Nch, Nref)
+        extra = 1 + j % 2
+        plan.append(dict(n=n, Nch=Nch, Nref=Nref, Nf=4 * (n + extra + 1) + int(rng.integers(0, 20)), sgn=-1 if (j // 2) % 2 else 1,
+                         dt=float(dts[int(rng.integers(0, len(dts)))]), method="per" if j % 5 else "cor", nxseg=int(rng.choice([64, 256])),
+                         A=A, B=B, extra_order=extra, oracle_only=True, src="above", floor=0.0 if j < n_above else 1e-7,
+                         floor_seed=int(rng.integers(0, 2 ** 31))))
+    above = dict(total=0, raised=0, first=None)
     n_model = 0
     for it in plan:
         n, Nch, Nref, Nf, sgn, dt, method, nxseg = it["n"], it["Nch"], it["Nref"], it["Nf"], it["sgn"], it["dt"], it["method"], it["nxseg"]
@@ -493,6 +513,14 @@ def run(ctx):
         Sy, worstA = spectrum(A, B, Nf, sgn)
         fix = 0 if sgn == -1 else n
         cond = ls_condition(A, B, Sy, Nf, sgn, fix)
+        floor = float(it.get("floor") or 0.0)
+        if floor:
+            g = np.random.default_rng(int(it["floor_seed"]))
+            Sy = Sy * (1 + floor * (g.standard_normal(Sy.shape) + 1j * g.standard_normal(Sy.shape)))
+            case = dict(case, floor=floor, floor_seed=int(it["floor_seed"]),
+                        note="Sy multiplied entrywise by 1 + floor*(N(0,1) + i N(0,1)) drawn from numpy default_rng(floor_seed)")
+        if it.get("src") == "above" or it.get("ordmax"):
+            case = dict(case, ordmax=int(it.get("ordmax") or n + int(it["extra_order"])))
         z, _ = true_roots(A)
         ctx.count(case, nontrivial=bool((np.abs(z) < 1).any() and (np.abs(z) > 1).any()) or Nref != Nch)
         ctx.hist("shape(n,Nch,Nref)", (n, Nch, Nref))
@@ -504,13 +532,23 @@ def run(ctx):
         if cond > 3e4:
             ctx.not_judged += 1
             continue
-        ordmax = n + 1 if it.get("extra_order") else n
+        ordmax = int(it.get("ordmax") or n + int(it.get("extra_order") or 0))
+        stat = (it.get("src") == "above" or bool(it.get("ordmax"))) and not floor and ordmax > n
+        if stat:
+            above["total"] += 1
         sg = sgn if rng.random() < 0.5 else float(sgn)
         try:
             Ad, Bn = plscf.pLSCF(Sy, dt, ordmax, sgn_basf=sg)
         except np.linalg.LinAlgError:
+            if ordmax > n and floor:
+                ctx.fail("oracle", "pLSCF raised LinAlgError for ordmax = %d > n = %d on a spectrum with a %.0e full-rank floor (nothing is singular): "
+                         "the order-n model is never returned" % (ordmax, n, floor), case, key="C05:pLSCF:raises-above-order-n")
+                continue
             if ordmax > n:
-                ctx.not_judged += 1  # exact data make the constrained block singular above order n (DESIGN C05)
+                if stat:
+                    above["raised"] += 1
+                    above["first"] = above["first"] or case
+                ctx.not_judged += 1  # exact data make the constrained block singular above order n (DESIGN C05): judged as a rate below
                 continue
             ctx.fail("oracle", "pLSCF raised LinAlgError on a well-conditioned exactly rational spectrum at ordmax = n", case, key="C05:pLSCF:linalg")
             continue
@@ -536,7 +574,7 @@ def run(ctx):
         if bad_comp:
             ctx.fail("oracle", "pLSCF: " + bad_comp, case, key="C05:pLSCF:components")
             continue
-        ok = oracle_coefficients(ctx, case, Ad[n - 1], Bn[n - 1], A, B, sgn, cond, "pLSCF")
+        ok = oracle_coefficients(ctx, case, Ad[n - 1], Bn[n - 1], A, B, sgn, cond, "pLSCF", tol=(5 * floor * cond + 1e-8) if floor else None)
         # model: exact residuals of the returned coefficients (small shapes only)
         small = (n + 1) * Nch <= 8 and Nref <= 2 and Nf <= 16 and not it.get("oracle_only")
         if small and Ad[n - 1].shape == (n + 1, Nch, Nch) and Bn[n - 1].shape == (n + 1, Nref, Nch) and n_model < ctx.n(12, 40):
@@ -551,7 +589,7 @@ def run(ctx):
         except Exception as e:  # noqa: BLE001
             ctx.fail("oracle", "pLSCF_poles raised %s on the coefficients pLSCF returned" % type(e).__name__, case, key="C05:poles:raise")
             continue
-        oracle_order_column(ctx, case, tables, A, B, dt, method, nxseg, n - 1, Nch, ordmax, "e2e")
+        oracle_order_column(ctx, case, tables, A, B, dt, method, nxseg, n - 1, Nch, ordmax, "e2e", tol=max(TOL_POLE, 3 * floor * cond) if floor else None)
         if (n + 1) * Nch <= (12 if quick else 20) and not it.get("oracle_only"):
             try:
                 cols, eres = witness_columns(Ad, Bn, dt)
@@ -565,6 +603,12 @@ def run(ctx):
                 if pe is not None:
                     exprs.append(pe)
                     metas.append(("poles", case, dict(tables=tables, cols=cols, key="e2e")))
+
+    ctx.extra["above_order_n"] = dict(exact_calls=above["total"], raised=above["raised"])
+    if above["total"] >= 12 and 3 * above["raised"] >= above["total"]:
+        ctx.fail("oracle", "pLSCF raised LinAlgError on %d of %d exactly rational spectra with ordmax in {n+1, n+2} (np.linalg.solve on the unchanged tree: "
+                 "about 1 in 18, only when a rounding-noise pivot is exactly 0): the order-n model is not returned for ordmax > n" % (above["raised"], above["total"]),
+                 above["first"], key="C05:pLSCF:raises-above-order-n")
 
     # ---------------- 2. rmfd2ac on short dyadic blocks (exact model) + realisation oracle
     for k in range(ctx.n(24, 120)):
